@@ -320,6 +320,8 @@ KINDS = {
     'C17': ('mk', 'fld', 'BAD-STRUCT', 'BAD-FIELDS'),
     # identifiers that coincide across roles (a hook named like an event, look-alike states): bodies, methods, arms, variants
     'C18': ('b', 'm', 'arm', 'ev', 'sub'),
+    'C10': ('dyn', 'BAD-DYN', 'into', 'BAD-INTO', 'BAD-VIS'),       # the wrapper, its Default impl, the conversions
+    'C19': ('arm', 'BAD-ARM', 'BAD-HANDLE', 'BAD-DYN'),             # the frame of handle(): take, arms, write-back
 }
 
 
